@@ -748,6 +748,34 @@ func (g *rgen) scriptsFor(o *out, si *schemaInfo, mi *msgInfo) {
 			}
 		}
 	}
+	// states only a Go struct literal (or the unspecified Set of an invalid message) produces: a oneof wrapper
+	// holding a nil message, a nil list element, a nil map value; then the mutating accessors
+	for f, fi := range mi.fields {
+		f, fi := f, fi
+		fd := fi.fd
+		switch {
+		case fi.oneofIdx >= 0 && isMsgKind(fd):
+			init := si.emptyV(mi)
+			init.L[f] = &V{K: 's', P: vNil}
+			s := newSessionV(o, si, mi, "script_wrapper_nil", init)
+			c := &script{s: s, g: g}
+			func() {
+				defer func() {
+					if e := recover(); e != nil && e != errStop {
+						panic(e)
+					}
+				}()
+				c.has(0, f)
+				c.which(0, fi.oneofIdx)
+				m := c.mut(0, f)
+				c.valid(m)
+				c.touch(m)
+				c.get(0, f)
+				c.rng(0)
+			}()
+			s.finish()
+		}
+	}
 	// unknown fields, on the root and on a nested message
 	g.scripted(o, si, mi, "script_unknown", func(c *script) {
 		c.simple("getunk", 0)
@@ -1160,13 +1188,13 @@ func engineReflect(cfg config, o *out) {
 					g.exhaustive(o, si, mi, 8, 2)
 					g.exhaustive(o, si, mi, 3, 3)
 				} else {
-					g.exhaustive(o, si, mi, 7, 2)
+					g.exhaustive(o, si, mi, 8, 2)
 				}
 			} else {
 				g.exhaustive(o, si, mi, 4, 1)
 			}
 			g.scriptsFor(o, si, mi)
-			n := 60
+			n := 150
 			if cfg.thorough() {
 				n *= 20
 			}
